@@ -16,7 +16,10 @@ CHECKS = {
               "reference written on sequences, plus the counting identity, offsets-name-their-points, largest-range and "
               "negate/shift/scale laws. TLC exports the expected table per input and every implementation built from the "
               "working tree (c_rain fast + two-pass macro variant, py_rain, cyclecount.rainflow) is replayed on every input "
-              "and on exact affine images, with and without offsets; tables must match exactly."),
+              "and on exact affine images, with and without offsets; tables must match exactly. Memory layouts (spec Layouts / LayoutLaw / "
+              "InputNeverWritten): a sample of the inputs is also passed as non-contiguous float64 / int64 views (every second cell, a column of a "
+              "row-major table, a reversed view) of a buffer whose other cells hold a filler; the table must be the one of the plain sequence and "
+              "the whole buffer must be unchanged after the call."),
         ref="4/C05",
         note=("Trusted: TLC, gcc build of c_rain.c from the working tree, the 40-line ASTM reference in the spec. numba absent: "
               "decorated definitions run undecorated. Real-valued inputs are covered only through dyadic affine images and "
@@ -31,7 +34,7 @@ CHECKS = {
               "batch recursion of the force history in effect (Valid, FinalIsBatch), the cache is coherent whenever used, and no "
               "action touches a column beyond the one addressed. Every exported maximal history is then replayed into the real "
               "generators (SolveUnc real / complex / cd_as_force, SolveCDF, SolveExp2; order 0/1; rb/el/rf blocks; m None/vector/"
-              "matrix; zero, d0/v0, static ic) and after EVERY action ts._force (exactly), d and v (all columns incl. the stale ones "
+              "matrix; the 7 initial-condition rules exported by the spec - zero, d0, v0, d0+v0, static, static+d0, static+v0) and after EVERY action ts._force (exactly), d and v (all columns incl. the stale ones "
               "the spec predicts) are compared with the terms interpreted by the batch solver's two-sample tsolve; finalize() d,v,a "
               "vs batch tsolve; get_f2x vs measured unit add-on increments (order 1). Growth (specs/OdeReuse.tla): ONE solver object used "
               "for a history of public calls (tsolve / fsolve / complete generator session / get_f2x; hidden slots modelled by their last "
@@ -54,11 +57,19 @@ CHECKS = {
               "histories, SRS envelope = max over cases) and merge + form_extreme over events (NaN = row absent in an event), with the "
               "abstract state compared after every action. specs/ApplyUF.tla: call histories of uf tuples sharing one cache, documented "
               "scaling exported as terms; apply_uf / DR_Event.apply_uf replayed: terms (1e-10), cached = fresh bit-for-bit, d = d_static "
-              "+ d_dynamic, unit factors, input untouched."),
+              "+ d_dynamic, unit factors, input untouched. Cases WITHOUT abscissae (constant XLess: add_maxmin without x-values, PSD events) are mixed with "
+              "cases that have them (invariant AbscissaKnownIffHolderHasOne). specs/ResultsTree.tla: a DR_Results hierarchy (2-3 levels) as a "
+              "tree that is edited and re-enveloped - actions form_extreme(doappend 0-3, case_order) / delete_extreme / split+merge of a base "
+              "results object / del of an event; TLC checks on every tree reachable by the structural actions x 256 data assignments that the "
+              "code-shaped fold is the declarative envelope (first attaining base case in traversal order), order independence, the label law of "
+              "each doappend mode, idempotence / delete / clean-slate laws and merge(split(R)) = R; every history of 2 (thorough 3) actions is "
+              "replayed on real hierarchies built with merge(), the whole tree (keys, presence of 'extreme', ext, ext_x, labels, cases, mx/mn "
+              "columns, names, base results untouched) compared after every action, stale entries included."),
         ref="4/C16",
         note=("Trusted: TLC, the generic term evaluator (numpy). Ties: any attaining case/abscissa accepted. One-column semantics as in "
               "the repo's own test (col 1 largest |v| keeping sign, col 2 smallest). psd_data_recovery only through the shared "
-              "extrema/_store_maxmin path. A genuine defect found by this check was repaired (known_findings.json, fix: d921fe8)."),
+              "extrema/_store_maxmin path. Three genuine defects found by this check were repaired (known_findings.json: d921fe8 one-column extrema, "
+              "387710a x-values copied wholesale, 19bd364 split() without case labels)."),
         technique="TLA+ state machine over case histories (TLC exhaustive) + replay into cla.extrema/DR_Results; term export for uncertainty factors",
     ),
     "C09": dict(
@@ -69,7 +80,10 @@ CHECKS = {
               "W=2,3 and LF=3 W=1; thorough adds LF=5 W=3 and LF=6 W=4), and exports every feasible completion order. Each order is "
               "FORCED on the real pool through hook H1 (a turnstile at the workers' shared-array writes) and srs (6 stype x 4 ic x 3 "
               "time x getresp, all peak methods) and fdepsd outputs are compared bit-for-bit with parallel='no'. The (pid, task, "
-              "ticket) events recorded at the linearisation point are validated as behaviours of the model (forced and natural runs)."),
+              "ticket) events recorded at the linearisation point are validated as behaviours of the model (forced and natural runs). The model "
+              "also marshals the inputs (action Share: shared copies are binary64 whatever the caller passed; SerialRep: the serial loop works on "
+              "the same representation): frequency vectors given as float32 and int64 are run serially and in parallel (genuine defect repaired, "
+              "fix: 77f40a0)."),
         ref="4/C09",
         note=("Trusted: TLC; fork start method; visibility of RawArray writes after Pool exit; hook H1 (commit in MANIFEST.hooks) placed "
               "around the writes. A turnstile time-out is exit 2 (machinery), never a violation. Differences that need an exact tie "
@@ -80,7 +94,8 @@ CHECKS = {
         cat="model_checking",
         text=("specs/Uset.tla: every assignment of the 8 base sets to K=3 DOF slots (512); TLC checks OneBase, the disjoint-union "
               "lattice identities and PVLaws and exports the expected partition vector or refusal for all 22x22 (major, minor) set "
-              "expressions; replayed exhaustively into make_uset / addgrid (6-letter strings) / mksetpv (names and bit masks), "
+              "expressions; replayed exhaustively into make_uset / addgrid (6-letter strings, also with every DOF's letter different from its "
+              "neighbours' and as a list of per-grid strings) / mksetpv (names and bit masks), "
               "exception <=> refusal; mkusetmask's bit table is bound by membership of every base set in every named set. "
               "specs/Locate.tla: defining equations of mkdofpv/expanddof (2-D id/component requests, 1-D ids, strict/non-strict, "
               "DataFrame and ndarray tables) and find_duplicates, flippv, index2bool, index2slice, find_subseq, find_vals, "
